@@ -24,6 +24,7 @@ type selfUpd struct {
 	gload  ssa.Instruction
 	inHelp bool
 	cond   bool // conditional inside its helper
+	gflip  bool // addfield: the operand is the flipped colour (STM only)
 }
 
 func (u selfUpd) String() string {
@@ -75,6 +76,10 @@ func classifySelfUpdate(st *ssa.Store, field string) (selfUpd, bool) {
 				u.op, u.k, u.g = "addfield", sign, g
 				u.gload = stripConv(y).(*ssa.UnOp)
 				return u, true
+			} else if ld, fl, ok := stmOperand(y, 0); ok {
+				u.op, u.k, u.g, u.gflip = "addfield", sign, "Board.STM", fl
+				u.gload = ld
+				return u, true
 			}
 		}
 	}
@@ -124,14 +129,14 @@ func selfUpdates(p *Prog, fn *ssa.Function, field string) (upd []selfUpd, plain 
 		if h == nil || h == fn || !isOwn(h) || relPkg(fnPkgPath(h)) != "board" || len(h.Blocks) == 0 {
 			return
 		}
-		for _, st := range fieldStores(h, field) {
-			u, ok := classifySelfUpdate(st, field)
+		for _, hs := range helperStores(h, field, 0, map[*ssa.Function]bool{fn: true}) {
+			u, ok := classifySelfUpdate(hs.st, field)
 			if !ok {
 				plain++
 				continue
 			}
 			u.site, u.inHelp = call, true
-			u.cond = !onEveryPathOnce(h, st)
+			u.cond = hs.cond
 			if u.gload != nil {
 				u.gload = call
 			}
@@ -155,6 +160,81 @@ func onEveryPathOnce(fn *ssa.Function, in ssa.Instruction) bool {
 		}
 	})
 	return ok
+}
+
+// fieldPhase: in which state does fn read board field g at `load`: "orig" = the value before the move was made,
+// "made" = the value after it, "same" = fn never changes g, "?" = not decided. In a make, a read that no store of g
+// reaches sees the original; in an undo, a read that every store of g dominates sees the (restored) original.
+func fieldPhase(p *Prog, fn *ssa.Function, g string, load ssa.Instruction, isUndo bool) string {
+	gs, _ := selfUpdates(p, fn, g)
+	var sites []ssa.Instruction
+	for _, x := range gs {
+		sites = append(sites, x.site)
+	}
+	for _, s := range fieldStores(fn, g) {
+		sites = append(sites, s)
+	}
+	if len(sites) == 0 {
+		return "same"
+	}
+	after, before := true, true
+	for _, s := range sites {
+		if !instrDominates(s, load) {
+			after = false
+		}
+		if r, _ := reachAvoiding(s, load, nil); r {
+			before = false
+		}
+	}
+	switch {
+	case before && !after:
+		if isUndo {
+			return "made"
+		}
+		return "orig"
+	case after && !before:
+		if isUndo {
+			return "orig"
+		}
+		return "made"
+	}
+	return "?"
+}
+
+// updGuard: the relative update at `site` runs under exactly one condition, a test of a board field against a
+// constant, and that test itself is evaluated exactly once on every path. Returns field, constant, sense, the load.
+func updGuard(fn *ssa.Function, u selfUpd) (g string, k int64, eq bool, load ssa.Instruction, ok bool) {
+	if u.inHelp || u.cond {
+		return
+	}
+	conds := controllingConds(u.site.Block())
+	if len(conds) != 1 {
+		return
+	}
+	ce := conds[0]
+	bo, isb := ce.Cond.(*ssa.BinOp)
+	if !isb || (bo.Op != token.EQL && bo.Op != token.NEQ) {
+		return
+	}
+	for _, pr := range [][2]ssa.Value{{bo.X, bo.Y}, {bo.Y, bo.X}} {
+		kk, isc := constOf(pr[1])
+		ld, isl := stripConv(pr[0]).(*ssa.UnOp)
+		if !isc || !isl {
+			continue
+		}
+		f, isf := directFieldLoad(ld)
+		if !isf {
+			continue
+		}
+		if r, _ := reachAvoiding(u.site, u.site, nil); r {
+			return
+		}
+		if !onEveryPathOnce(fn, ce.If) {
+			return
+		}
+		return f, kk, (bo.Op == token.EQL) == ce.True, ld, true
+	}
+	return
 }
 
 func c03R9(c *Ctx, p *Prog) {
@@ -196,7 +276,7 @@ func c03R9(c *Ctx, p *Prog) {
 			}
 			u := uu[0]
 			if len(mu) == 0 {
-				if mplain > 0 {
+				if _, writes := boardWrites(p, mk)["board."+field]; mplain > 0 || writes {
 					c.Undec(rule, key, pos, "%s restores %s relative to its current value (%s) but %s assigns it absolutely", pr[1], field, u, pr[0])
 				} else {
 					c.Fail(rule, key, pos, "%s changes %s relative to its current value (%s) but %s never updates it: make followed by undo leaves it different", pr[1], field, u, pr[0])
@@ -226,6 +306,20 @@ func c03R9(c *Ctx, p *Prog) {
 			switch {
 			case mOnce && uOnce:
 			case !mOnce && !uOnce:
+				// both under the same test of a board field read in the same state (`if b.STM == Black { b.fullMoves++ }`)
+				gm, km, em, lm, okm := updGuard(mk, m)
+				gu, ku, eu, lu, oku := updGuard(un, u)
+				if okm && oku && gm == gu && km == ku && em == eu {
+					pm, pu := fieldPhase(p, mk, gm, lm, false), fieldPhase(p, un, gu, lu, true)
+					if pm != "?" && pu != "?" && (pm == "same" || pu == "same" || pm == pu) {
+						c.Ok(rule, key, pos, "%s reverts %s by (%s) under the same test of %s, read in the same state, under which %s applies (%s)", pr[1], field, u, gm, pr[0], m)
+						continue
+					}
+					if pm != "?" && pu != "?" {
+						c.Fail(rule, key, pos, "%s updates %s under a test of the %s value of %s, %s reverts it under the same test of its %s value: the two differ, so make followed by undo leaves %s different", pr[0], field, map[string]string{"orig": "pre-move", "made": "post-move"}[pm], gm, pr[1], map[string]string{"orig": "pre-move", "made": "post-move"}[pu], field)
+						continue
+					}
+				}
 				c.Undec(rule, key, pos, "both %s and %s update %s only on some paths; agreement of the two conditions is not decided", pr[0], pr[1], field)
 				continue
 			case !mOnce:
@@ -238,42 +332,21 @@ func c03R9(c *Ctx, p *Prog) {
 			if u.op == "addfield" {
 				// the operand field must denote the same value on both sides: read before it is changed in the make and
 				// after it is restored in the undo (or the other way round on both)
-				phase := func(fn *ssa.Function, load ssa.Instruction, isUndo bool) string {
-					gs, _ := selfUpdates(p, fn, u.g)
-					var sites []ssa.Instruction
-					for _, g := range gs {
-						sites = append(sites, g.site)
+				pm, pu := fieldPhase(p, mk, u.g, m.gload, false), fieldPhase(p, un, u.g, u.gload, true)
+				// the flipped colour of the post-move side is the pre-move side (STM only ever flips)
+				flipPhase := func(ph string, fl bool) string {
+					if !fl {
+						return ph
 					}
-					for _, s := range fieldStores(fn, u.g) {
-						sites = append(sites, s)
-					}
-					if len(sites) == 0 {
-						return "same"
-					}
-					after, before := true, true
-					for _, s := range sites {
-						if !instrDominates(s, load) {
-							after = false
-						}
-						if r, _ := reachAvoiding(s, load, nil); r {
-							before = false
-						}
-					}
-					switch {
-					case before && !after:
-						if isUndo {
-							return "made"
-						}
-						return "orig"
-					case after && !before:
-						if isUndo {
-							return "orig"
-						}
+					switch ph {
+					case "orig":
 						return "made"
+					case "made":
+						return "orig"
 					}
 					return "?"
 				}
-				pm, pu := phase(mk, m.gload, false), phase(un, u.gload, true)
+				pm, pu = flipPhase(pm, m.gflip), flipPhase(pu, u.gflip)
 				if pm == "?" || pu == "?" {
 					c.Undec(rule, key, pos, "%s is updated by the value of %s; whether both sides read it in the same state is not decided", field, u.g)
 					continue
@@ -300,4 +373,96 @@ func init() {
 			File2: "board/board.go", Old2: "func (b *Board) UndoMove(m move.Move, r Reverse) {\n", New2: "func (b *Board) UndoMove(m move.Move, r Reverse) {\n\tb.fullMoves -= int(b.STM)\n",
 			Expect: "C03.R9/board.(*Board).UndoMove#Board.fullMoves#relative-restore"},
 	)
+}
+
+// stmOperand: v is the side to move as a number — conv(load STM), possibly flipped (Flip() / ^1), possibly through a
+// one-block helper of the program that only converts (and flips) its parameter. Returns the load and whether the
+// value is the flipped colour.
+func stmOperand(v ssa.Value, depth int) (load *ssa.UnOp, flipped bool, ok bool) {
+	v = stripConv(v)
+	for i := 0; i < 8; i++ {
+		if call, isCall := v.(*ssa.Call); isCall {
+			if objName(calleeObj(call)) == "chess.(Color).Flip" && len(call.Call.Args) == 1 {
+				v, flipped = stripConv(call.Call.Args[0]), !flipped
+				continue
+			}
+			h := call.Call.StaticCallee()
+			if h != nil && isOwn(h) && len(h.Blocks) == 1 && depth < 3 {
+				// pure pass-through helper: return conv/flip of one parameter
+				as := resultAssignments(h, 0)
+				if len(as) == 1 && h.Signature.Results().Len() == 1 {
+					inner := stripConv(as[0].Val)
+					fl := false
+					for j := 0; j < 4; j++ {
+						if c2, isC := inner.(*ssa.Call); isC && objName(calleeObj(c2)) == "chess.(Color).Flip" && len(c2.Call.Args) == 1 {
+							inner, fl = stripConv(c2.Call.Args[0]), !fl
+							continue
+						}
+						if bo, isB := inner.(*ssa.BinOp); isB && bo.Op == token.XOR {
+							if k, isc := constOf(bo.Y); isc && k == 1 {
+								inner, fl = stripConv(bo.X), !fl
+								continue
+							}
+						}
+						break
+					}
+					if par, isPar := inner.(*ssa.Parameter); isPar {
+						for pi, q := range h.Params {
+							if q == par && pi < len(call.Call.Args) {
+								l2, f2, ok2 := stmOperand(call.Call.Args[pi], depth+1)
+								return l2, f2 != (fl != flipped), ok2
+							}
+						}
+					}
+				}
+			}
+			return nil, false, false
+		}
+		if bo, isB := v.(*ssa.BinOp); isB && bo.Op == token.XOR {
+			if k, isc := constOf(bo.Y); isc && k == 1 {
+				v, flipped = stripConv(bo.X), !flipped
+				continue
+			}
+		}
+		break
+	}
+	if ld, isL := v.(*ssa.UnOp); isL && ld.Op == token.MUL {
+		if f, isF := directFieldLoad(ld); isF && f == "Board.STM" {
+			return ld, flipped, true
+		}
+	}
+	return nil, false, false
+}
+
+type helperStore struct {
+	st   *ssa.Store
+	cond bool // not executed exactly once per call of the outermost helper
+}
+
+// helperStores: the stores to `field` made by h and the helpers of package board it calls (three levels).
+func helperStores(h *ssa.Function, field string, depth int, seen map[*ssa.Function]bool) []helperStore {
+	if depth > 3 || seen[h] {
+		return nil
+	}
+	seen[h] = true
+	defer delete(seen, h)
+	var out []helperStore
+	for _, st := range fieldStores(h, field) {
+		out = append(out, helperStore{st, !onEveryPathOnce(h, st)})
+	}
+	allInstrs(h, func(in ssa.Instruction) {
+		call, ok := in.(*ssa.Call)
+		if !ok {
+			return
+		}
+		h2 := call.Call.StaticCallee()
+		if h2 == nil || !isOwn(h2) || relPkg(fnPkgPath(h2)) != "board" || len(h2.Blocks) == 0 {
+			return
+		}
+		once := onEveryPathOnce(h, call)
+		for _, hs := range helperStores(h2, field, depth+1, seen) {
+			out = append(out, helperStore{hs.st, hs.cond || !once})
+		}
+	})
+	return out
 }
